@@ -3,7 +3,6 @@ package legs
 import (
 	"fmt"
 	"math/rand"
-	"os"
 	"sort"
 	"strconv"
 	"strings"
@@ -526,9 +525,14 @@ func c18Tables(t *syntax.RegexTree) string {
 	return fmt.Sprintf("caps%v numlist%v captop%d names%v list%q", ks, t.Capnumlist, t.Captop, nm, t.Caplist)
 }
 
-func c18Parse(pat string, ro regexp2.RegexOptions) c18Parsed {
+// c18Parse parses and compiles one spelling. plain: the parse-level views (tree, tables, find
+// optimizations, program) are taken with the optimizing rewrites of tree.go switched off
+// (syntax.VerifDisableRewrites); the compiled Regexp used for matching is always the normal one.
+func c18Parse(pat string, ro regexp2.RegexOptions, plain bool) c18Parsed {
 	var p c18Parsed
+	syntax.VerifDisableRewrites = plain
 	t, err := syntax.Parse(pat, syntax.ParseOptions{RegexOptions: syntax.RegexOptions(ro)})
+	syntax.VerifDisableRewrites = false
 	if err != nil {
 		p.err = err.Error()
 	} else {
@@ -570,8 +574,7 @@ func c18Check(c *core.Ctx, cases []c18Case) []core.Outcome {
 		}
 	}
 	var res []string
-	noDriver := os.Getenv("RV_NODRIVER") != "" // development aid: the spellings that need no model
-	if !noDriver {
+	{
 		var err error
 		res, err = c.RunDriver(lines)
 		if err != nil {
@@ -605,7 +608,7 @@ func c18Check(c *core.Ctx, cases []c18Case) []core.Outcome {
 				sp["prefix"] = "(?" + set + ")" + pat
 				sp["wrap"] = "(?" + set + ":" + pat + ")"
 			}
-			base := c18Parse(pat, ro)
+			base := c18Parse(pat, ro, false)
 			if base.err != "" || base.cerr != "" {
 				o.Buckets = append(o.Buckets, "compile-error")
 			} else {
@@ -616,19 +619,22 @@ func c18Check(c *core.Ctx, cases []c18Case) []core.Outcome {
 				p    c18Parsed
 				ref  c18Parsed
 			}
-			alts := []alt{{"prefix", c18Parse(sp["prefix"], 0), base}, {"wrap", c18Parse(sp["wrap"], 0), base}}
+			alts := []alt{{"prefix", c18Parse(sp["prefix"], 0, false), base}, {"wrap", c18Parse(sp["wrap"], 0, false), base}}
 			if hasOpt {
 				sp["rescoped"] = patR
-				alts = append(alts, alt{"rescoped", c18Parse(patR, ro), base})
+				alts = append(alts, alt{"rescoped", c18Parse(patR, ro, false), base})
 			}
-			if !noDriver {
+			{
 				expl, err := c18Explicit(res[i*32+os_], flats[i])
 				if err != nil {
 					bad("correspondence-break", "driver-answer", err.Error(), "token list", res[i*32+os_])
 					break
 				}
-				// the explicit spelling has every leaf in its own group: compare with the pattern whose leaves are wrapped in plain (?:…)
-				alts = append(alts, alt{"explicit", c18Parse(expl, 0), c18Parse(patW, ro)})
+				// the explicit spelling has every leaf in its own group: compare with the pattern whose leaves are
+				// wrapped in plain (?:…). Its interior nodes carry no option bits at all, and the auto-atomic /
+				// prefix-factoring rewrites compare whole option words of a leaf and an interior node
+				// (canBeMadeAtomic), so the parse-level views are compared before those rewrites.
+				alts = append(alts, alt{"explicit", c18Parse(expl, 0, true), c18Parse(patW, ro, true)})
 				sp["explicit"] = expl
 				sp["explicit-ref"] = patW
 			}
@@ -704,9 +710,6 @@ func c18Check(c *core.Ctx, cases []c18Case) []core.Outcome {
 		}
 		if o.Fail != nil {
 			o.Buckets = append(o.Buckets, "fail:"+o.Fail.Key)
-			if f := os.Getenv("RV_KEYFILTER"); f != "" && !strings.Contains(o.Fail.Key, f) { // development aid
-				o.Fail = nil
-			}
 		}
 	}
 	return outs
